@@ -97,9 +97,9 @@ def run(chk):
                 "dtypes + structured DAG and layout families, NumPy oracle; each replayed under several input chunkings x "
                 "{single-threaded, threads, processes} x optimize on/off; non-trivial = some input has >= 2 blocks; distinct = "
                 "(program, chunking, executor, optimize)")
-    nA = 120 if chk.tier == "quick" else 2500
-    nB = 120 if chk.tier == "quick" else 2500
-    nch = 2 if chk.tier == "quick" else 4
+    nA = 120 if chk.tier == "quick" else 1200
+    nB = 120 if chk.tier == "quick" else 1200
+    nch = 2 if chk.tier == "quick" else 3
     stats = dict(replays=0, declined=0, build_errors=0, compute_errors=0)
     # ---- (A) TLA+ evaluated
     cases, keep = [], []
